@@ -17,15 +17,17 @@ theorem p2sh_eq (sh : Bytes) : p2shScript sh = shScript sh := by simp [p2shScrip
 theorem push1_eq (b : Bytes) : push1 b = dpush b := rfl
 
 
-/-- what the signer has to deliver for input `i` of `t` (whichever key index `j` the wallet looks up):
-    good ECDSA signatures for the legacy / BIP143 requests, a good 64-byte Schnorr signature for the taproot one -/
+/-- what the signer has to deliver for input `i` of `t` (whichever key index `j` the wallet looks up) — ONLY the one
+    request the type of the spent script needs (told apart by its length: 25 = P2PKH, 22 = P2WPKH, 23 = P2SH, 34 = P2TR):
+    a good ECDSA signature for the legacy request (P2PKH) resp. the BIP143 request (P2WPKH, P2SH-P2WPKH), a good 64-byte
+    Schnorr signature for the taproot one (P2TR) -/
 structure SignerOk (O : Oracles) (ks : List KeyRec) (sg : SigFn) (i : Nat) (uo : TxOut) : Prop where
-  legacy : ∀ j krj, ks[j]? = some krj →
+  legacy : ∀ j krj, ks[j]? = some krj → uo.script.length = 25 →
     GoodSig O .base uo.script (sg i (.legacy j uo.script) ++ [1]) krj.pub ∧
     sg i (.legacy j uo.script) ++ [1] ≠ krj.h160
-  witv0 : ∀ j krj, ks[j]? = some krj →
+  witv0 : ∀ j krj, ks[j]? = some krj → uo.script.length = 22 ∨ uo.script.length = 23 →
     GoodSig O .witnessV0 (p2pkhScript krj.h160) (sg i (.witv0 j (p2pkhScript krj.h160) uo.value) ++ [1]) krj.pub
-  taproot : ∀ j krj, ks[j]? = some krj → (sg i (.taproot j)).length = 64 ∧
+  taproot : ∀ j krj, ks[j]? = some krj → uo.script.length = 34 → (sg i (.taproot j)).length = 64 ∧
     ∃ d, O.sigHashTap none [] 0 0 false = some d ∧ O.schnorrVerify ((krj.pub.drop 1).take 32) (sg i (.taproot j)) d = some true
 
 theorem accept_aux (H : Addr.Hashes) (O : Oracles) (f : Flags) (q : Quirks) (c : Cfg) (pubs : List Bytes) (ms : MsFn)
@@ -65,7 +67,7 @@ theorem accept_aux (H : Addr.Hashes) (O : Oracles) (f : Flags) (q : Quirks) (c :
     obtain ⟨_, _, hl, _, _⟩ := keyfacts k kr hk
     obtain ⟨j, krj, hj, hje, hsi⟩ := signInput_p2pkh H c _ (sig (skeleton t)) i k kr val hk hl no_cross
     obtain ⟨hjl, hjh, _, _, _⟩ := keyfacts j krj hj
-    obtain ⟨g, gne⟩ := hL j krj hj
+    obtain ⟨g, gne⟩ := hL j krj hj (by simp [p2pkhScript, hl])
     rw [hsi] at hctxS hctxW
     generalize sig (skeleton t) i (.legacy j (p2pkhScript kr.h160)) = S at g gne hctxS
     show verifyScript O _ (pkhScript kr.h160) f q = _
@@ -76,7 +78,7 @@ theorem accept_aux (H : Addr.Hashes) (O : Oracles) (f : Flags) (q : Quirks) (c :
     obtain ⟨adr, ha⟩ := Option.isSome_iff_exists.mp haddr
     obtain ⟨j, krj, hj, hje, hsi⟩ := signInput_p2wpkh H c _ (sig (skeleton t)) i k kr val hk hl no_cross adr ha
     obtain ⟨hjl, hjh, _, _, _⟩ := keyfacts j krj hj
-    have g := hW j krj hj
+    have g := hW j krj hj (Or.inl (by simp [p2wpkhScript, hl]))
     have hs : inp.scriptSig = [] := by
       rcases hss with h | h | h
       · exact h
@@ -93,7 +95,7 @@ theorem accept_aux (H : Addr.Hashes) (O : Oracles) (f : Flags) (q : Quirks) (c :
     obtain ⟨_, _, _, hl, _⟩ := keyfacts k kr hk
     obtain ⟨j, krj, hj, hje, hsi⟩ := signInput_p2sh H c _ (sig (skeleton t)) i k kr val hk hl no_cross hb
     obtain ⟨hjl, hjh, hjl20, _, hjs⟩ := keyfacts j krj hj
-    have g := hW j krj hj
+    have g := hW j krj hj (Or.inr (by simp [p2shScript, hl]))
     rw [hsi] at hctxS hctxW
     generalize sig (skeleton t) i (.witv0 j (p2pkhScript krj.h160) val) = S at g hctxW
     have g' : GoodSig O .witnessV0 (pkhScript krj.h160) (S ++ [1]) krj.pub := g
@@ -107,7 +109,7 @@ theorem accept_aux (H : Addr.Hashes) (O : Oracles) (f : Flags) (q : Quirks) (c :
     have hl : ((kr.pub.drop 1).take 32).length = 32 := by simp; omega
     obtain ⟨adr, ha⟩ := Option.isSome_iff_exists.mp haddr
     obtain ⟨j, krj, hj1, hj, hje⟩ := lookup_xo (keyTable H c.bech32 pubs) k kr hk
-    obtain ⟨h64, d, hd, hv⟩ := hT j krj hj
+    obtain ⟨h64, d, hd, hv⟩ := hT j krj hj (by simp [p2trScript]; omega)
     have hsi : signInput H c (keyTable H c.bech32 pubs) (sig (skeleton t)) i
         (some { value := val, script := p2trScript ((kr.pub.drop 1).take 32) }) =
         { scriptSig := none, witness := some [sig (skeleton t) i (.taproot j)], signed := true } := by
